@@ -63,19 +63,26 @@ def _K(n):
     return 4 * (n + 1) ** 2
 
 
-def _mk_cvrs(cards, vseed):
+def _num(k, D=None):
+    """the sample number handed to the code for the case's integer k: k itself, or (case field `num_scale` = D, a power
+    of two, every k < 2^40) the float k/D -- "sample_num: float" in the CVR signature; sample numbers are only ever
+    compared, so the model keeps working with the integers k (k -> k/D is exact and strictly increasing)"""
+    return int(k) if not D else int(k) / D
+
+
+def _mk_cvrs(cards, vseed, D=None):
     from shangrla.core.Audit import CVR
     rng = random.Random(vseed)
-    return [CVR(id=f"c{i}", votes=_votes(rng, cd["styles"]), phantom=bool(cd["phantom"]), sample_num=int(cd["num"]))
+    return [CVR(id=f"c{i}", votes=_votes(rng, cd["styles"]), phantom=bool(cd["phantom"]), sample_num=_num(cd["num"], D))
             for i, cd in enumerate(cards)]
 
 
-def _mk_contests(contests, use_style=True, audit_type=None):
+def _mk_contests(contests, use_style=True, audit_type=None, D=None):
     from shangrla.core.Audit import Contest, Audit
     d = {}
     for con in contests:
         d[con["id"]] = {"id": con["id"], "sample_size": con.get("size", 0),
-                        "sample_threshold": (None if con.get("thr") is None else int(con["thr"])),
+                        "sample_threshold": (None if con.get("thr") is None else _num(con["thr"], D)),
                         "use_style": use_style, "risk_limit": 0.05,
                         "audit_type": audit_type or Audit.AUDIT_TYPE.CARD_COMPARISON}
     return Contest.from_dict_of_dicts(d)
@@ -159,9 +166,14 @@ def _mk_mvrs(n, cids, vseed, cards=None):
     return mv
 
 
-def _thr(con):
+def _thr(con, D=None):
     t = con.sample_threshold
-    return None if t is None else str(int(t))
+    if t is None:
+        return None
+    if D:
+        k = t * D
+        return str(int(k)) if float(k) == int(k) else f"non-integer:{t!r}*{D}"
+    return str(int(t))
 
 
 def _run_history(case, vseed):
@@ -169,9 +181,10 @@ def _run_history(case, vseed):
     cards, n = case["cards"], len(case["cards"])
     cids = [c["id"] for c in case["contests"]]
     K = _K(n)
-    cvrs = _mk_cvrs(cards, vseed)
+    D = case.get("num_scale")
+    cvrs = _mk_cvrs(cards, vseed, D)
     mvrs = _mk_mvrs(n, cids, vseed, cards)
-    contests = _mk_contests(case["contests"], use_style=case["use_style"])
+    contests = _mk_contests(case["contests"], use_style=case["use_style"], D=D)
     asns = {c: _mk_assertion(con, K, n) for c, con in contests.items()}
     rng = random.Random(vseed + 13)
     prev, out = None, []
@@ -181,12 +194,14 @@ def _run_history(case, vseed):
         # the other variant on copies (same state), for the "continue selects what a redraw selects" check
         alt = None
         if prev is not None:
-            alt_contests = _mk_contests([{"id": c, "size": contests[c].sample_size, "thr": contests[c].sample_threshold}
-                                         for c in cids], use_style=case["use_style"])
-            alt_cvrs = _mk_cvrs(cards, vseed + 1)
+            alt_contests = _mk_contests([{"id": c, "size": contests[c].sample_size, "thr": None} for c in cids],
+                                        use_style=case["use_style"])
+            for c in cids:
+                alt_contests[c].sample_threshold = contests[c].sample_threshold
+            alt_cvrs = _mk_cvrs(cards, vseed + 1, D)
             try:
                 a_sel = CVR.consistent_sampling(alt_cvrs, alt_contests, None if r["cont"] else list(prev))
-                alt = {"sel": [int(i) for i in a_sel], "thr": [_thr(alt_contests[c]) for c in cids]}
+                alt = {"sel": [int(i) for i in a_sel], "thr": [_thr(alt_contests[c], D) for c in cids]}
             except Exception as e:  # noqa
                 alt = {"err": err_kind(e)}
         try:
@@ -203,7 +218,7 @@ def _run_history(case, vseed):
             break
         prev = sel
         sel_l = [int(i) for i in sel]
-        rec = {"st": "ok", "sel": sel_l, "thr": [_thr(contests[c]) for c in cids],
+        rec = {"st": "ok", "sel": sel_l, "thr": [_thr(contests[c], D) for c in cids],
                "flags": [bool(c.sampled) for c in cvrs], "alt": alt}
         # retrieve the cards in some other order, let prep_comparison_sample restore the selection order
         cs = [cvrs[i] for i in sel_l]; ms = [mvrs[i] for i in sel_l]
@@ -234,11 +249,16 @@ def impl(case):
         return {"st": "ok", "rounds": a, "meta_same": a == b}
     if k == "cs":
         from shangrla.core.Audit import CVR
-        cvrs = _mk_cvrs(case["cards"], case["vseed"])
-        contests = _mk_contests(case["contests"])
+        D = case.get("num_scale")
+        cvrs = _mk_cvrs(case["cards"], case["vseed"], D)
+        contests = _mk_contests(case["contests"], D=D)
         prev = None if case["prev"] is None else list(case["prev"])
-        sel = CVR.consistent_sampling(cvrs, contests, prev)
-        return {"st": "ok", "sel": [int(i) for i in sel], "thr": [_thr(contests[c["id"]]) for c in case["contests"]],
+        if case.get("call") == "kw":          # the documented keywords; `sampled_cvr_indices` left out when there is none
+            kw = {} if prev is None else {"sampled_cvr_indices": prev}
+            sel = CVR.consistent_sampling(contests=contests, cvr_list=cvrs, **kw)
+        else:
+            sel = CVR.consistent_sampling(cvrs, contests, prev)
+        return {"st": "ok", "sel": [int(i) for i in sel], "thr": [_thr(contests[c["id"]], D) for c in case["contests"]],
                 "flags": [bool(c.sampled) for c in cvrs], "same_object": (prev is None) or (sel is prev)}
     if k == "assign":
         from shangrla.core.Audit import CVR
@@ -277,6 +297,11 @@ def impl(case):
         ms = [CVR(id=i, votes={}) for i in case["mvr"]]
         cs = [CVR(id=i, votes={}) for i in case["cvr"]]
         order = {i: {"selection_order": k_, "serial": 0} for i, k_ in case["order"]}
+        if case.get("polling"):
+            # ballot-polling audits have no CVR sample: prep_polling_sample puts the manual records alone back into
+            # selection order (the model is asked about the same list on both sides)
+            CVR.prep_polling_sample(ms, order)
+            return {"st": "ok", "mvr": [m.id for m in ms], "cvr": [m.id for m in ms]}
         CVR.prep_comparison_sample(ms, cs, order)
         return {"st": "ok", "mvr": [m.id for m in ms], "cvr": [c.id for c in cs]}
     if k == "data":
@@ -408,7 +433,8 @@ def request(case):
         last = [op for op in case["ops"] if op["op"] == "number"][-1]
         return ("sampling", "assign", {"n": len(case["cards"]), "nums": _script(last, len(case["cards"]))})
     if k == "prep":
-        return ("sampling", "prep", {"mvr": case["mvr"], "cvr": case["cvr"], "order": case["order"]})
+        return ("sampling", "prep", {"mvr": case["mvr"], "cvr": case["mvr"] if case.get("polling") else case["cvr"],
+                                     "order": case["order"]})
     if k == "data":
         ty = "comparison" if case["ty"] in ("comparison", "oneaudit") else case["ty"]
         return ("sampling", "data", {"ty": ty, "use_style": case["use_style"], "use_all": case["use_all"],
@@ -797,7 +823,52 @@ def corpus():
     ]
 
 
+def gen_options(rng):
+    """call forms and value types the other streams never use (OPTIONS_AUDIT.md):
+      * prep_polling_sample (ballot-polling audits: the manual records alone are put back into selection order);
+      * consistent_sampling called with its documented keywords, `sampled_cvr_indices` left out when there is none;
+      * sample numbers that are floats with a fractional part (`sample_num: float`): k / 2^j, down to all in [0, 1)"""
+    u = rng.random()
+    if u < 0.35:
+        c = gen_prep(rng)
+        for _ in range(6):
+            if c["mvr"] and sorted(c["mvr"]) == sorted(c["cvr"]) or not c["mvr"]:
+                break
+            c = gen_prep(rng)
+        c["cvr"] = list(c["mvr"])
+        c["polling"] = True
+        return c
+    if u < 0.70:
+        c = gen_cs(rng)
+        c["call"] = rng.choice(["kw", "kw", "pos"])
+        if rng.chance(0.6) and all(0 <= int(cd["num"]) < 2 ** 40 for cd in c["cards"]) and \
+                all(k.get("thr") is None or 0 <= int(k["thr"]) < 2 ** 40 for k in c["contests"]):
+            c["num_scale"] = _scale_for(rng, c["cards"])
+        return c
+    c = gen_rounds(rng, n=rng.choice([2, 3, 4, 6, 8, 12, 20]))
+    if all(0 <= int(cd["num"]) < 2 ** 40 for cd in c["cards"]):
+        c["num_scale"] = _scale_for(rng, c["cards"])
+    return c
+
+
+def _scale_for(rng, cards):
+    """a power of two D: mostly one that brings every sample number into [0, 1) (numbers drawn uniformly from the unit
+    interval), else a small one (halves, quarters: some numbers integral, most not)"""
+    top = max([int(cd["num"]) for cd in cards] + [1])
+    big = 1 << (top.bit_length() + rng.choice([0, 0, 1, 3]))
+    return rng.choice([big, big, 2, 4, 8])
+
+
 def gen(rng, n, tier):
+    import hashlib
+    from ..core import Rng
+    opt = Rng(int(hashlib.sha1(("options" + repr(rng.getstate())).encode()).hexdigest()[:15], 16))
+    yield from gen_main(rng, n, tier)
+    for _ in range(max(8, n // 40)):
+        yield gen_options(opt)
+
+
+def gen_main(rng, n, tier):
     count = 0
     ex = list(gen_exhaustive(rng, 4 if tier == "quick" else 5))
     if len(ex) > n // 2:
@@ -854,6 +925,25 @@ def _prefixes(case, sizes):
 
 def oracle_c07(case, ir):
     k = case["kind"]
+    if k == "prep":
+        # "ordering of MVR/CVR samples by selection order": when every sampled id has its own selection order, the
+        # manual records (and, in a comparison audit, the CVRs) come back in that order
+        order = {i: k_ for i, k_ in case["order"]}
+        ids = case["mvr"]
+        wellformed = (len(order) == len(case["order"]) and len(set(order.values())) == len(order)
+                      and all(i in order for i in ids) and len(set(ids)) == len(ids)
+                      and (case.get("polling") or sorted(case["cvr"]) == sorted(ids)))
+        if not wellformed:
+            return None
+        if ir.get("st") != "ok":
+            return {"what": f"{'prep_polling_sample' if case.get('polling') else 'prep_comparison_sample'} raised {ir.get('err')} on a "
+                            f"sample in which every card has its own selection order"}
+        want = sorted(ids, key=lambda i: order[i])
+        if ir["mvr"] != want or ir["cvr"] != want:
+            return {"what": f"{'prep_polling_sample' if case.get('polling') else 'prep_comparison_sample'} left the manual records "
+                            f"in the order {ir['mvr']}" + ("" if case.get("polling") else f" and the CVRs in {ir['cvr']}")
+                            + f"; selection order is {want}"}
+        return None
     if k == "assign":
         if ir.get("st") != "ok":
             return {"what": f"assign_sample_nums raised {ir.get('err')}"}
